@@ -199,8 +199,9 @@ class Rejection(Sampler):
             dtype = nbatch.dtype
 
             if node == self.discrepancy_name:
-                # Initialize the distances to inf
-                samples[node] = np.ones(shape, dtype=dtype) * np.inf
+                # Initialize the distances to nan so that the unfilled rows sort after
+                # every simulated draw, also after those with an infinite distance
+                samples[node] = np.ones(shape, dtype=dtype) * np.nan
             else:
                 samples[node] = np.empty(shape, dtype=dtype)
 
